@@ -16,8 +16,11 @@ SPEC = os.path.join(ROOT, "spec")
 HARN = os.path.join(ROOT, "harness")
 CONFORM = os.path.join(HARN, "target", "release", "conform")
 WORK = os.path.join(ROOT, "work")
-REPLAYS = os.path.join(ROOT, "replays")
-EVID = os.path.join(ROOT, "evidence")
+REPLAYS = os.path.join(ROOT, "work", "alt-replays") if os.environ.get("VERIF_REPO") else os.path.join(ROOT, "replays")
+# (a run against a scratch copy of the repository - VERIF_REPO, used only by selftest/run_seeded.py --scratch - must not
+#  overwrite the evidence and replays of /repo itself)
+_ALT = bool(os.environ.get("VERIF_REPO"))
+EVID = os.path.join(WORK, "alt-evidence") if _ALT else os.path.join(ROOT, "evidence")
 NCPU = os.cpu_count() or 4
 PAR = max(2, min(12, NCPU - 2))          # parallel TLC JVMs for trace validation
 MAXREPLAYS = 12
@@ -72,6 +75,7 @@ class Ctx:
         self.exhaustive = True
         self.n = 0
         self.known_db = load_known()
+        self.actions = {}        # trace event x outcome -> count (which spec actions the implementation exercised)
 
     @property
     def quick(self):
@@ -433,8 +437,23 @@ def validate(ctx, module, trace, label, key_fields=None, group=1, jopts="", samp
     ncases = count_cases(lines, group)
     ctx.traces += ncases - nm - nk
     ctx.evaluations += ncases
-    for ln in lines[:: max(1, len(lines) // 4000)]:
-        pass
+    if group == "begin":
+        # which specification actions the implementation's traces exercised: event x outcome histogram
+        for ln in lines:
+            m = re.search(r'"ev":"([A-Za-z]+)"', ln)
+            if not m:
+                continue
+            ev = m.group(1)
+            if ev in ("PollReady", "PollFuture"):
+                r = re.search(r'"ret":"([a-z_]+)"', ln)
+                ev += ":" + (r.group(1) if r else "?")
+            elif ev == "End":
+                r = re.search(r'"kind":"([A-Za-z]*)".*"res":"([a-z]*)"', ln)
+                ev += ":" + ((r.group(1) or r.group(2)) if r else "?")
+            elif ev.startswith("Stage"):
+                r = re.search(r'"res":"([a-z]*)"', ln)
+                ev += ":" + (r.group(1) if r else "?")
+            ctx.actions[ev] = ctx.actions.get(ev, 0) + 1
     if group == "begin":
         # distinct (case id, caller-visible outcome); the case id is in the Begin line, the outcome in the End line
         cur_id = None
@@ -522,6 +541,7 @@ def finish(ctx, level="model_checking", rule="", assumptions=None, extra=None):
         "campaigns": ctx.campaigns,
         "known_findings_observed": {k: v for k, v in ctx.known.items() if not k.startswith("_sample_")},
         "notes": ctx.notes,
+        "spec_actions_exercised_by_impl_traces": dict(sorted(ctx.actions.items())),
     }
     if extra:
         cov.update(extra)
